@@ -15,7 +15,7 @@ HERE = os.path.dirname(os.path.dirname(os.path.dirname(os.path.abspath(__file__)
 RULE = ('cases = TT tensors / TT matrices of order 1..6, f32/f64/c64/c128, obtained from {core lists, TT-SVD of a dense array (rank list with numpy integers), '
         'slicing (non-contiguous core views), transposition, conj, rounding, arithmetic} x {save+load into a fresh directory, clone, detach (tracked and '
         'untracked), cpu, to(dtype), numpy}. Oracle: loaded object has identical kind/N/M/R/dtype and torch.equal cores; clone has equal cores and disjoint '
-        'storage ranges; the others have the same dense value (converted dtype for to()). distinct = (source, op, structure, dtype); all non-trivial.')
+        'storage ranges, and after an in-place resizing set_core on either of the two the other keeps its metadata, cores and dense value; the others have the same dense value (converted dtype for to()). distinct = (source, op, structure, dtype); all non-trivial.')
 ASSUMPTIONS = ['the unpickling policy is whatever the installed torch enforces (weights_only default) - that is the environment users have']
 REQUIRED_REACH = ['_extras:save', '_extras:load', '_tt_base:TT.clone', '_tt_base:TT.detach', '_tt_base:TT.cpu', '_tt_base:TT.to', '_tt_base:TT.numpy']
 REQUIRED_COUNTS = {'op:saveload': 1, 'op:clone': 1, 'clone_independence_histories': 20, 'op:detach': 1, 'op:cpu': 1, 'op:to': 1, 'op:numpy': 1, 'source:svd': 1, 'source:slice': 1, 'source:transpose': 1,
